@@ -319,7 +319,10 @@ fn eval_earcut(t: &mut Toks) -> R<String> {
 }
 
 fn cdt_of(g: &Geometry<f64>) -> R<(String, String, String)> {
-    let cfg = || DelaunayTriangulationConfig::default();
+    // at a scaled-down case (`SC <k>`, k < 0) the snap radius is scaled with the coordinates, as a caller working at that
+    // scale would configure it; otherwise the default (1e-4)
+    let scale = proto::SCALE.with(|c| c.get());
+    let cfg = move || if scale < 1.0 { DelaunayTriangulationConfig { snap_radius: 1e-4 * scale } } else { DelaunayTriangulationConfig::default() };
     Ok(match g {
         Geometry::Polygon(p) => (
             res_tris(p.constrained_triangulation(cfg())),
